@@ -417,8 +417,9 @@ def run(chk, F):
             if w in allowed:
                 continue
             same = sib.get((fn.name, c.name, s_["input"]), set())
-            twin = " — the identical instruction is used in the arm for the %s-bit type" % max(same) if len(same) > 1 else ""
             vb = min(VALUE_BITS.get(t, 0) for t in g[1])
+            others = sorted(b for b in same if b != vb)
+            twin = " — the identical instruction is also used in the arm for the %d-bit type" % others[0] if others else ""
             if w > vb:
                 what = ("the upper %d bits of the register are not part of the %s value (32-bit values are kept "
                         "zero-extended, so a negative Int32 is read as a large positive number)" % (w - vb, "/".join(g[1])))
